@@ -557,6 +557,9 @@ def dispatch(argv):
         return check_core(cmd, tier)
     if cmd in ("C09", "C10"):
         return check_pacing(cmd, tier)
+    if cmd in ("C17", "C18", "C19"):
+        import engines_sat
+        return engines_sat.check_sat(cmd, tier)
     print(f"unknown command {cmd}", file=sys.stderr)
     return 2
 
@@ -565,6 +568,8 @@ def setup():
     import subprocess
     build_harness("debug")
     build_harness("release")
+    import engines_sat
+    engines_sat.build_sat()
     for f in sorted(os.listdir(SPEC)):
         if f.endswith(".tla"):
             p = subprocess.run(["tla-sany", f], cwd=SPEC, stdout=subprocess.PIPE, stderr=subprocess.STDOUT, text=True)
@@ -581,6 +586,9 @@ def setup():
 def replay_file(path):
     """Re-run one recorded counterexample: replay its behaviour, validate the trace."""
     rec = json.load(open(path))
+    if rec.get("engine") == "sat":
+        import engines_sat
+        return engines_sat.replay_sat(rec)
     d = os.path.join(WORK, "replay-one")
     os.makedirs(d, exist_ok=True)
     beh = os.path.join(d, "beh.ndjson")
